@@ -6,6 +6,7 @@ import (
 	"fmt"
 	"math"
 	"math/big"
+	"regexp"
 	"strings"
 
 	"github.com/llir/llvm/ir/constant"
@@ -197,6 +198,12 @@ func c10One(c *config, k c10Kind, bits *big.Int, label string) {
 	if k.letter == "K" || k.letter == "L" || k.letter == "M" {
 		o.Case("frt", []string{k.letter, bits.String()}, []string{hx(printed)})
 	}
+	// the printed literal is a floating-point token of the assembly language (digits, a point, an optional exponent;
+	// or one of the hexadecimal forms): "1e+06" is an identifier-like garbage for LLVM and for the library's lexer
+	if !c10FloatToken.MatchString(printed) {
+		o.Fail("float_round_trip", "", "the printed literal is not a floating-point token of the assembly language", det)
+		return
+	}
 	// the printed literal denotes the identical bit pattern
 	c2, oc3, _ := c10Parse(k, printed)
 	if oc3 != ocOk {
@@ -270,6 +277,8 @@ func c10One(c *config, k c10Kind, bits *big.Int, label string) {
 	o.Pass("float_round_trip")
 }
 
+var c10FloatToken = regexp.MustCompile(`^([-+]?[0-9]+[.][0-9]*([eE][-+]?[0-9]+)?|0x[KLMHR]?[0-9A-Fa-f]+)$`)
+
 func c10Random(r *rng, nbits int) *big.Int {
 	x := new(big.Int)
 	for b := 0; b < nbits; b += 32 {
@@ -342,6 +351,13 @@ func runC10(c *config) {
 				f := math.Float32frombits(uint32(r.next()))
 				c10One(c, k, new(big.Int).SetUint64(math.Float64bits(float64(f))), "random")
 			}
+			for e := 0; e <= 10; e++ {
+				for _, d := range []float32{1, 2, 4, 5, 25, 1.5, 3} {
+					v := d * float32(math.Pow(10, float64(e)))
+					c10One(c, k, new(big.Int).SetUint64(math.Float64bits(float64(v))), "decimal_shapes")
+					c10One(c, k, new(big.Int).SetUint64(math.Float64bits(float64(-v))), "decimal_shapes")
+				}
+			}
 			for _, b := range c10Boundary(8, 23) {
 				f := math.Float32frombits(uint32(b.Uint64()))
 				if !math.IsNaN(float64(f)) {
@@ -354,6 +370,16 @@ func runC10(c *config) {
 			}
 			for _, b := range c10Boundary(11, 52) {
 				c10One(c, k, b, "boundary")
+			}
+			// values the printer writes in decimal: few significant digits times a power of ten (the exponent form,
+			// with and without a fraction), and their neighbours
+			for e := 0; e <= 22; e++ {
+				for _, d := range []float64{1, 2, 4, 5, 25, 125, 1.5, 3} {
+					v := d * math.Pow(10, float64(e))
+					for _, x := range []float64{v, -v, math.Nextafter(v, 0)} {
+						c10One(c, k, new(big.Int).SetUint64(math.Float64bits(x)), "decimal_shapes")
+					}
+				}
 			}
 		case "L":
 			for i := 0; i < N; i++ {
